@@ -700,7 +700,20 @@ class Interp:
             alts = [(tm.TRUE, ins.get('coff', 0))]
             for r, scale in ins['var']:
                 vs = _ivalues(self.get(r))
-                if vs is None or len(vs) * len(alts) > 16:
+                if vs is None and isinstance(self.get(r), T) and isinstance(b, Ptr) and scale > 0:
+                    # a symbolic index into an object of known size: one alternative per element that lies inside the object; every other value of the
+                    # index addresses memory outside it -- recorded as an obligation (kind 18, out of bounds) under the path condition of the block
+                    size = self._obj_size(b)
+                    idx = self.get(r)
+                    if size is not None:
+                        n = max(0, (size - ins.get('coff', 0) + scale - 1) // scale)
+                        if 0 < n <= 16 and n * len(alts) <= 64:
+                            vs = [(tm.icmp('eq', idx, tm.const(idx.w, k)), k) for k in range(n)]
+                            inb = tm.icmp('ult', idx, tm.const(idx.w, n))
+                            if not hasattr(self, 'traps'):
+                                self.traps = []
+                            self.traps.append({'kind': 18, 'cond': self.cond[self.cur].and_lit(tm.not_(inb)), 'dbg': ins.get('dbg'), 'block': self.cur})
+                if vs is None or len(vs) * len(alts) > 64:
                     raise Unsupported('variable gep: index %s' % (tm.show(self.get(r), 4) if isinstance(self.get(r), T) else type(self.get(r))))
                 alts = [(tm.and_(c1, c2), o + v * scale) for c1, o in alts for c2, v in vs]
             alts = [(c, o) for c, o in alts if c is not tm.FALSE]
